@@ -91,3 +91,71 @@ func checkC04(c Case, r *vcore.Rec) *vcore.Failure {
 func TestC04(t *testing.T) {
 	vcore.Run(t, "C04", rapid.Custom(func(t *rapid.T) Case { return GenHistory(t, c04Params) }), checkC04)
 }
+
+var c02Params = &HistoryParams{MinOps: 15, MaxOps: 50, Cloud: 0, Lag: true,
+	Weights: map[string]int{"create": 18, "delete": 14, "sched": 20, "phase": 5, "deliver": 14, "unbind": 14, "drop": 0, "reserve": 0,
+		"unreserve": 0, "fipevent": 0, "apirelease": 1, "restart": 1, "poolapi": 1, "scale": 3},
+	Kinds: []string{"sts", "dp", "dp", "cr", "nscr", "bare", "dppool"}, Policies: []string{"immutable", "never", "never", ""}}
+
+func checkC02(c Case, r *vcore.Rec) *vcore.Failure {
+	o := &ObsC02{}
+	x, f := runHistory(c, r, o)
+	if x == nil {
+		return f
+	}
+	if o.Sticky > 0 {
+		r.NonTrivial()
+		r.Class("bound_with_reservation")
+	}
+	return f
+}
+
+func TestC02(t *testing.T) {
+	vcore.Run(t, "C02", rapid.Custom(func(t *rapid.T) Case { return GenHistory(t, c02Params) }), checkC02)
+}
+
+var c03Params = &HistoryParams{MinOps: 15, MaxOps: 50, Cloud: 0, Lag: true, EndQuiesce: true,
+	Weights: map[string]int{"create": 16, "delete": 14, "sched": 18, "phase": 8, "deliver": 10, "unbind": 10, "drop": 3, "reserve": 0,
+		"unreserve": 0, "fipevent": 0, "apirelease": 0, "restart": 1, "poolapi": 0, "poolobj": 0, "scale": 6, "delwl": 3, "mkwl": 2,
+		"quiesce": 4, "resync": 6}}
+
+func checkC03(c Case, r *vcore.Rec) *vcore.Failure {
+	o := &ObsC03{}
+	x, f := runHistory(c, r, o)
+	if x == nil {
+		return f
+	}
+	r.ClassIf(o.Keeps > 0, "keep_decision")
+	r.ClassIf(o.Releases > 0, "release_decision")
+	if o.Keeps > 0 && o.Releases > 0 && o.ScaleOrDelete {
+		r.NonTrivial()
+	}
+	return f
+}
+
+func TestC03(t *testing.T) {
+	vcore.Run(t, "C03", rapid.Custom(func(t *rapid.T) Case { return GenHistory(t, c03Params) }), checkC03)
+}
+
+var c10Params = &HistoryParams{MinOps: 15, MaxOps: 50, Cloud: 2, CloudFail: true, Lag: true, Episodes: true,
+	Weights: map[string]int{"create": 18, "delete": 14, "sched": 20, "phase": 6, "deliver": 12, "unbind": 12, "drop": 1, "reserve": 0,
+		"unreserve": 0, "fipevent": 0, "apirelease": 4, "restart": 1, "resync": 6},
+	Kinds: []string{"sts", "sts", "dp", "cr", "bare", "dppool"}}
+
+func checkC10(c Case, r *vcore.Rec) *vcore.Failure {
+	o := &ObsC10{}
+	x, f := runHistory(c, r, o)
+	if x == nil {
+		return f
+	}
+	r.ClassIf(o.Moved, "pod_identity_moved_node")
+	r.ClassIf(o.ProvFail, "provider_call_failed")
+	if o.Moved || o.ProvFail {
+		r.NonTrivial()
+	}
+	return f
+}
+
+func TestC10(t *testing.T) {
+	vcore.Run(t, "C10", rapid.Custom(func(t *rapid.T) Case { return GenHistory(t, c10Params) }), checkC10)
+}
